@@ -27,8 +27,8 @@ DESIGN = {
             [("Loop_mut_firstonly.cfg", "C04"), ("Loop_mut_strict.cfg", "C04")]),
     "C05": (["Loop_quick.cfg", "Loop_live.cfg"], ["Loop_small.cfg", "Loop_faults.cfg", "Loop_live.cfg", "Loop_live2.cfg"], [("Loop_mut_skip_noidle.cfg", "C05"), ("Loop_mut_no_reidle.cfg", "C01")]),
     "C08": (["Loop_faults_quick.cfg", "Loop_quick.cfg", "Loop_live_faults.cfg"], ["Loop_faults.cfg", "Loop_small.cfg", "Loop_live_faults.cfg"], [("Loop_mut_exit_without_answer.cfg", "C08")]),
-    "C17": (["AlbumArt.cfg"], ["AlbumArt.cfg", "AlbumArt_big.cfg"], []),
-    "C18": (["Handshake.cfg"], ["Handshake.cfg"], []),
+    "C17": (["AlbumArt.cfg"], ["AlbumArt.cfg", "AlbumArt_big.cfg"], [("AlbumArt_mut_limit_offset.cfg", "C17"), ("AlbumArt_mut_empty_is_none.cfg", "C17"), ("AlbumArt_mut_no_fallback.cfg", "C17")]),
+    "C18": (["Handshake.cfg"], ["Handshake.cfg"], [("Handshake_mut_eof_is_ok.cfg", "C18"), ("Handshake_mut_skip_verdict.cfg", "C18"), ("Handshake_mut_accept_invalid.cfg", "C18")]),
 }
 DESIGN_MODULE = {"AlbumArt.cfg": "AlbumArt", "AlbumArt_big.cfg": "AlbumArt", "Handshake.cfg": "Handshake"}
 
@@ -125,10 +125,11 @@ def _run(prop, tier, replay, seed, work, t0):
             r = C.design_check(DESIGN_MODULE.get(cfg, "Loop"), cfg, work, workers=12 if quick else 14, timeout=240 if quick else 1500, xmx="10g")
             design.append(r)
         # ---- vacuity guard: a seeded model mutant must trip the monitor it is aimed at
-        for cfg, tag in muts[: (1 if quick else len(muts))]:
-            r = C.tlc_model("Loop", cfg, work, workers=4, timeout=200, coverage=False)
+        for cfg, tag in muts[: (1 if quick and prop not in ("C17", "C18") else len(muts))]:
+            r = C.tlc_model(cfg.split("_mut_")[0] if cfg.split("_mut_")[0] in ("Handshake", "AlbumArt") else "Loop", cfg, work, workers=4, timeout=200, coverage=False)
             # Inv_Final evaluates WFinal (C01/C08 end-of-session clauses) as a state predicate: its tag is not in the state
-            hit = bool(r["violated"]) and (f'"{tag}"' in r["out"] or "Inv_Final" in r["violated"])
+            # (likewise Inv_Iff of Handshake.tla: connect succeeds only on a valid greeting and an accepted password)
+            hit = bool(r["violated"]) and (f'"{tag}"' in r["out"] or "Inv_Final" in r["violated"] or "Inv_Iff" in r["violated"] or "Inv_C17" in r["violated"])
             selftests.append({"cfg": cfg, "expected": tag, "tripped": hit})
             if not hit:
                 raise C.ToolError(f"self-test {cfg} did not trip monitor {tag}: the monitors may be vacuous")
